@@ -4,6 +4,7 @@ import (
 	"go/ast"
 	"go/token"
 	"go/types"
+	"strings"
 
 	"j5verif/checker/core"
 )
@@ -178,4 +179,103 @@ func nestingBuildersBounded(r *core.Run) {
 	if n == 0 {
 		r.Fatal("R-TERM/T-nest: no iterative nesting loop found in %s (fragmentsToFile)", parserRel)
 	}
+}
+
+// lexerErrorsPositioned (R-POS/lexerr): the parser turns a lexer error into a
+// diagnostic only when it is an *errpos.Err; anything else ends ParseFile with
+// a bare error — no tree, no list of diagnostics, and in collect-all mode the
+// diagnostics found so far are gone too. So every error a method of Lexer
+// returns comes from the lexer's own positioned constructor: it is the result
+// of a Lexer method, or a local that only ever holds such a result.
+func lexerErrorsPositioned(r *core.Run) {
+	r.Rule("R-POS/lexerr", "every non-nil error returned by a method of parser.Lexer is the result of a call of another Lexer method (the positioned constructor errf and what is built on it), a composite literal of errpos.Err, or a local all of whose definitions are such: an error of a library function (regexp, strconv) returned as it is has no position and makes ParseFile return neither a tree nor diagnostics")
+	pk := r.P.Pkg(parserRel)
+	if pk == nil {
+		r.Fatal("anchor: package %s not found", parserRel)
+		return
+	}
+	info := pk.TypesInfo
+	isLexerCall := func(e ast.Expr) bool {
+		c, ok := core.Unparen(e).(*ast.CallExpr)
+		if !ok {
+			return false
+		}
+		fn := core.CalleeFunc(info, c)
+		if fn == nil {
+			return false
+		}
+		sig, ok := fn.Type().(*types.Signature)
+		return ok && sig.Recv() != nil && strings.HasSuffix(core.TypeStr(sig.Recv().Type()), "parser.Lexer")
+	}
+	isErrLit := func(e ast.Expr) bool {
+		x := core.Unparen(e)
+		if u, ok := x.(*ast.UnaryExpr); ok {
+			x = core.Unparen(u.X)
+		}
+		cl, ok := x.(*ast.CompositeLit)
+		return ok && strings.HasSuffix(core.TypeStr(info.TypeOf(cl)), "errpos.Err")
+	}
+	n := 0
+	core.AllFuncDecls(pk, func(fd *ast.FuncDecl) {
+		if fd.Body == nil || core.RecvName(fd) != "Lexer" || fd.Type.Results == nil {
+			return
+		}
+		fn, _ := info.Defs[fd.Name].(*types.Func)
+		sig := fn.Type().(*types.Signature)
+		ei := sig.Results().Len() - 1
+		if ei < 0 || core.TypeStr(sig.Results().At(ei).Type()) != "error" {
+			return
+		}
+		ast.Inspect(fd.Body, func(m ast.Node) bool {
+			if _, isLit := m.(*ast.FuncLit); isLit {
+				return false
+			}
+			rs, ok := m.(*ast.ReturnStmt)
+			if !ok || len(rs.Results) != sig.Results().Len() {
+				return true
+			}
+			e := rs.Results[ei]
+			if core.IsNilIdent(info, e) {
+				return true
+			}
+			n++
+			o := r.Add("R-POS/lexerr", parserRel+"."+core.FuncName(fd)+" | "+core.NormExpr(info, e), rs.Pos(), "error returned by the lexer")
+			okSrc := isLexerCall(e) || isErrLit(e)
+			if id, isID := core.Unparen(e).(*ast.Ident); isID && !okSrc {
+				obj := info.ObjectOf(id)
+				defs, good := 0, 0
+				ast.Inspect(fd.Body, func(k ast.Node) bool {
+					as, ok := k.(*ast.AssignStmt)
+					if !ok {
+						return true
+					}
+					for i, l := range as.Lhs {
+						lid, ok := l.(*ast.Ident)
+						if !ok || info.ObjectOf(lid) != obj {
+							continue
+						}
+						defs++
+						var src ast.Expr
+						if len(as.Lhs) == len(as.Rhs) {
+							src = as.Rhs[i]
+						} else if len(as.Rhs) == 1 {
+							src = as.Rhs[0] // tuple result of one call
+						}
+						if src != nil && (isLexerCall(src) || isErrLit(src)) {
+							good++
+						}
+					}
+					return true
+				})
+				okSrc = defs > 0 && defs == good
+			}
+			if okSrc {
+				o.Auto("built by the lexer's positioned constructor")
+			} else {
+				o.Fail("this error does not come from the lexer's positioned constructor: the parser cannot turn it into a diagnostic, ParseFile returns an unexpected-lexer-error instead of a tree or a list of diagnostics (and drops the diagnostics collected before it)")
+			}
+			return true
+		})
+	})
+	r.Floor("R-POS/lexerr", 5, "error returns of NextToken, lexNumber, lexString, lexRegex, lexEscape")
 }
